@@ -171,6 +171,11 @@ def check(prop: str, tier: str, seed: int, replay: str | None) -> int:
         key = v.get('key')
         if key in open_keys:
             known_hits.setdefault(key, []).append(v)
+        elif isinstance(key, str) and '+' in key and all(p in open_keys for p in key.split('+')):
+            # a witness that needs several listed mechanisms at once (C06's
+            # explanatory models): known only if every part is listed
+            for p in key.split('+'):
+                known_hits.setdefault(p, []).append(v)
         else:
             unknown.append(v)
 
